@@ -14,7 +14,7 @@ abbrev RunState := Int
 abbrev Status := Int
 abbrev RunId := Nat
 abbrev Fid := Nat
-abbrev Obj := Nat
+abbrev Obj := Int
 abbrev Time := Int
 
 structure Rec where
@@ -39,6 +39,7 @@ structure Event where
   type      : Status   -- Event.Type
   runState  : RunState -- header run_state
   version   : Int      -- header record_version
+  createdAt : Time := 0 -- stamped by the streamer when the event is sent
 deriving DecidableEq, Repr, Inhabited
 
 structure Timer where
